@@ -75,7 +75,7 @@ class C03(Check):
         if not os.path.exists(exe):
             cbuild.link(ctx.sc, ctx.objs, [os.path.join(VERIF, 'harness', 'c04heap.c')], exe, ctx.cfl + ['-I' + os.path.join(REPO, 'src')] + C4.WRAP)
         allg = C4.heap_groups(ctx, ctx.sc.path('c03files'))
-        singles = [g[0] for g in allg if len(g) == 1 and not g[0].startswith('err ')]
+        singles = [g[0] for g in allg if len(g) == 1 and not g[0].startswith(('err ', 'bfill '))]
         keep = [g for g in allg if len(g) == 1 and g[0].startswith('err ') and int(g[0].split(' ')[1]) >= 6]
         groups = [[l] for l in singles] + [['N:' + l] for l in singles]
         res = C4.run_heap(ctx, exe, groups)
